@@ -101,9 +101,9 @@ fn build(ty: &str, pattern: u32, variant: u8) -> Result<(Vec<u8>, String), Strin
             rp: make_credential::PublicKeyCredentialRpEntity { id: "example.com".into(), name: (variant % 2 == 0).then(|| "Example".into()) },
             user: webauthn::PublicKeyCredentialUserEntity { id: vec![7; blen(variant, 3)].into(), name: "n".into(), display_name: "dn".into() },
             pub_key_cred_params: vec![es256_param(), param(coset::iana::Algorithm::RS256)],
-            exclude_list: has(5).then(|| vec![desc_v(variant % 2 == 0, 1, variant), desc(variant % 2 == 1, 2)]),
-            extensions: has(6).then(|| make_credential::ExtensionInputs { hmac_secret: Some(true), hmac_secret_mc: (variant == 2).then(|| hmac_input(true)), prf: Some(prf_inputs(variant)) }),
-            options: make_credential::Options { rk: variant % 2 == 0, up: true, uv: variant >= 1 },
+            exclude_list: has(5).then(|| if variant == 4 { vec![] } else { vec![desc_v(variant % 2 == 0, 1, variant), desc(variant % 2 == 1, 2)] }),
+            extensions: has(6).then(|| if variant == 4 { make_credential::ExtensionInputs { hmac_secret: None, hmac_secret_mc: None, prf: None } } else { make_credential::ExtensionInputs { hmac_secret: Some(true), hmac_secret_mc: (variant == 2).then(|| hmac_input(true)), prf: Some(prf_inputs(variant)) } }),
+            options: make_credential::Options { rk: variant % 2 == 0, up: variant != 4, uv: variant >= 1 },
             pin_auth: has(8).then(|| vec![4; blen(variant, 16)].into()),
             pin_protocol: has(9).then_some(1),
         }),
@@ -113,14 +113,14 @@ fn build(ty: &str, pattern: u32, variant: u8) -> Result<(Vec<u8>, String), Strin
             att_stmt: Cbor::Map(vec![]),
             ep_att: has(4).then_some(variant % 2 == 0),
             large_blob_key: has(5).then(|| vec![6; blen(variant, 32)].into()),
-            unsigned_extension_outputs: has(6).then(|| make_credential::UnsignedExtensionOutputs { prf: Some(AuthenticatorPrfMakeOutputs { enabled: true, results: (variant >= 1).then(|| AuthenticatorPrfValues { first: [1; 32], second: None }) }) }),
+            unsigned_extension_outputs: has(6).then(|| make_credential::UnsignedExtensionOutputs { prf: (variant != 4).then(|| AuthenticatorPrfMakeOutputs { enabled: true, results: (variant >= 1).then(|| AuthenticatorPrfValues { first: [1; 32], second: None }) }) }),
         }),
         "getAssertion.request" => ser(&get_assertion::Request {
             rp_id: "example.com".into(),
             client_data_hash: vec![2; blen(variant, 32)].into(),
-            allow_list: has(3).then(|| vec![desc_v(variant % 2 == 0, 1, variant)]),
-            extensions: has(4).then(|| get_assertion::ExtensionInputs { hmac_secret: (variant == 2).then(|| hmac_input(false)), prf: Some(prf_inputs(variant)) }),
-            options: get_assertion::Options { rk: false, up: variant % 2 == 0, uv: variant >= 1 },
+            allow_list: has(3).then(|| if variant == 4 { vec![] } else { vec![desc_v(variant % 2 == 0, 1, variant)] }),
+            extensions: has(4).then(|| get_assertion::ExtensionInputs { hmac_secret: (variant == 2).then(|| hmac_input(false)), prf: (variant != 4).then(|| prf_inputs(variant)) }),
+            options: get_assertion::Options { rk: false, up: variant % 2 == 0 && variant != 4, uv: variant >= 1 },
             pin_auth: has(6).then(|| vec![4; blen(variant, 16)].into()),
             pin_protocol: has(7).then_some(2),
         }),
@@ -132,16 +132,16 @@ fn build(ty: &str, pattern: u32, variant: u8) -> Result<(Vec<u8>, String), Strin
             number_of_credentials: has(5).then_some(3),
             user_selected: has(6).then_some(true),
             large_blob_key: has(7).then(|| vec![6; blen(variant, 32)].into()),
-            unsigned_extension_outputs: has(8).then(|| get_assertion::UnsignedExtensionOutputs { prf: Some(AuthenticatorPrfGetOutputs { results: AuthenticatorPrfValues { first: [1; 32], second: (variant >= 1).then_some([2; 32]) } }) }),
+            unsigned_extension_outputs: has(8).then(|| get_assertion::UnsignedExtensionOutputs { prf: (variant != 4).then(|| AuthenticatorPrfGetOutputs { results: AuthenticatorPrfValues { first: [1; 32], second: (variant >= 1).then_some([2; 32]) } }) }),
         }),
         "getInfo.response" => ser(&get_info::Response {
             versions: vec![get_info::Version::FIDO_2_0, get_info::Version::U2F_V2],
-            extensions: has(2).then(|| vec![get_info::Extension::HmacSecret, get_info::Extension::Prf]),
+            extensions: has(2).then(|| if variant == 4 { vec![] } else { vec![get_info::Extension::HmacSecret, get_info::Extension::Prf] }),
             aaguid: Aaguid::from([7; 16]),
-            options: has(4).then(|| get_info::Options { plat: variant % 2 == 0, rk: true, client_pin: (variant >= 1).then_some(false), up: true, uv: (variant >= 1).then_some(true) }),
+            options: has(4).then(|| get_info::Options { plat: variant % 2 == 0, rk: true, client_pin: (variant >= 1 && variant != 4).then_some(false), up: true, uv: (variant >= 1 && variant != 4).then_some(true) }),
             max_msg_size: has(5).then(|| std::num::NonZeroU128::new(1200).unwrap()),
-            pin_protocols: has(6).then(|| vec![1, 2]),
-            transports: has(9).then(|| vec![webauthn::AuthenticatorTransport::Internal, webauthn::AuthenticatorTransport::Hybrid]),
+            pin_protocols: has(6).then(|| if variant == 4 { vec![] } else { vec![1, 2] }),
+            transports: has(9).then(|| if variant == 4 { vec![] } else { vec![webauthn::AuthenticatorTransport::Internal, webauthn::AuthenticatorTransport::Hybrid] }),
         }),
         _ => {
             let mut h = hmac_input(has(4));
@@ -194,10 +194,14 @@ pub fn eval(c: &Case) -> (Vec<Finding>, String) {
             return (fs, "panic".into());
         }
     };
-    let Ok(Cbor::Map(entries)) = ciborium::de::from_reader::<Cbor, _>(bytes.as_slice()) else {
+    let mut cursor = std::io::Cursor::new(bytes.as_slice());
+    let Ok(Cbor::Map(entries)) = ciborium::de::from_reader::<Cbor, _>(&mut cursor) else {
         bad("not-a-cbor-map", "top level is not a CBOR map".into());
         return (fs, "not-a-map".into());
     };
+    if cursor.position() as usize != bytes.len() {
+        bad("bytes-after-the-map", format!("the top-level map ends after {} of {} serialised bytes (its header counts fewer members than were written)", cursor.position(), bytes.len()));
+    }
     let table = key_table(ty);
     let opt = optional_keys(ty);
     if c.mutation == "base" {
@@ -309,7 +313,8 @@ pub fn cases(tier: Tier) -> Vec<Case> {
         for pattern in 0..(1u32 << nopt) {
             // variant 3: byte-string members longer than 4 KiB – round trip only
             v.push(Case { ty: ty.into(), pattern, variant: 3, mutation: "base".into() });
-            for variant in 0..3u8 {
+            // variant 4: nested optional structures and lists present but empty
+            for variant in [0u8, 1, 2, 4] {
                 let mk = |m: String| Case { ty: ty.into(), pattern, variant, mutation: m };
                 v.push(mk("base".into()));
                 let present = |k: u8| table.iter().any(|(_, kk, req)| *kk == k && (*req || always_written(ty).contains(&k) || optional_keys(ty).iter().position(|x| *x == k).map_or(false, |i| pattern & (1 << i) != 0)));
@@ -412,7 +417,7 @@ pub fn run(ctx: &Ctx) -> Result<Run, String> {
     }
     let mut run = Run::from_stats(
         "exploration",
-        "for each of the six CTAP2 message types: all presence patterns of the optional members x 3 nested-value variants (plus a variant with byte-string members of more than 4 KiB), serialised with ciborium and inspected as a generic CBOR value (keys = the specification's integers for the present members, ascending, no nulls), round-tripped; mutations of the encodings: every integer key 0..255 not assigned to a member inserted (every position for the full pattern, at the end otherwise; all positions in thorough) with int/map/bytes values, unknown text keys at every position, each required member removed, each present member duplicated, options omitted / empty; all 256 status bytes converted both ways and injected as lookup failure under Client::authenticate. Every case is distinct",
+        "for each of the six CTAP2 message types: all presence patterns of the optional members x 4 nested-value variants (one with every nested optional structure and list present but empty; plus a variant with byte-string members of more than 4 KiB), serialised with ciborium and inspected as a generic CBOR value (one map spanning all serialised bytes; keys = the specification's integers for the present members, ascending, no nulls), round-tripped; mutations of the encodings: every integer key 0..255 not assigned to a member inserted (every position for the full pattern, at the end otherwise; all positions in thorough) with int/map/bytes values, unknown text keys at every position, each required member removed, each present member duplicated, options omitted / empty; all 256 status bytes converted both ways and injected as lookup failure under Client::authenticate. Every case is distinct",
         true,
         stats,
     );
